@@ -39,7 +39,8 @@ LEVEL = "exploration"
 RULE = ("stateful (rule-based) generation of socket histories: send batches / link loss / connect scripts / clock "
         "advances below the lifetimes (and outages in which a short-lived message expires among longer-lived ones) / write pauses; plus list-generated runs of 260..600 sends across outages. "
         "Non-trivial history: >= 2 messages pending together during an outage that ended in a connection, or >= 2 "
-        "tasks submitting in the same instant, or the packet counter wrapped; distinct by operation trace")
+        "tasks submitting in the same instant, or the packet counter wrapped; distinct by operation trace"
+        " Also: a connection subscriber submitting from inside the up / down notification, back-pressure starting on a new connection during the flush, unencodable messages among the accepted ones, twin sockets in one process.")
 ASSUMPTIONS = [
     "packet ids are not required to be sequential (only send_with_header ids are compared)",
     "no write faults, no expiry, no overflow here (C02/C16); link loss is injected at quiescent instants",
